@@ -11,9 +11,21 @@ from sa.claims import CLAIMS, NOT_APPLICABLE  # noqa: E402
 props = [json.loads(l)["id"] for l in open(os.path.join(HERE, "properties.jsonl"))]
 checks = []
 na = []
+import importlib
+
+kf = json.load(open(os.path.join(HERE, "known_findings.json")))
 for pid in props:
     if pid in CLAIMS and os.path.exists(os.path.join(HERE, "sa", "rules", f"{pid}.py")):
-        c = CLAIMS[pid]
+        c = dict(CLAIMS[pid])
+        expl = getattr(importlib.import_module(f"sa.rules.{pid}"), "EXPLANATION", "")
+        nk = sum(1 for k in kf.get("known", []) if k["property"] == pid)
+        nf = sum(1 for f in kf.get("fixed", []) if f"property={pid} " in f)
+        c["text"] = c["text"] + " Rules as built: " + expl
+        c["note"] = (
+            c["note"]
+            + f" Current bookkeeping (known_findings.json): {nk} known finding(s) recorded for this property, {nf} defect(s) of this property repaired in /repo by `fix:` commits."
+            + " The thorough tier additionally runs this property's mutation kill matrix and a negative matrix (the same rules on a behaviour-preserving rewrite of the whole tree must stay silent)."
+        )
         checks.append(
             {
                 "property_id": pid,
@@ -47,7 +59,9 @@ manifest = {
             "serves_properties": [c["property_id"] for c in checks],
             "kind_free_text": "repository-specific static analysis over Python ASTs (stdlib ast only): per-function CFG with edge dominance, "
             "job-lifecycle abstract interpretation, class-hierarchy/method resolution, effect and commit-point summaries, decision-table "
-            "enumeration, who-may-write/call rules; thorough tier adds an AST/text mutation kill matrix on scratch copies",
+            "enumeration, symbolic list-size conservation, union-set/alias interpretation, who-may-write/call rules, sibling cross-checks; a semantics-preserving "
+            "normalisation pre-pass (no-ops, local annotations, branch polarity, adjacent temporaries, local names) runs on the in-memory AST before the rules; "
+            "thorough tier adds a mutation kill matrix and a refactoring (negative) matrix on scratch copies",
         }
     ],
     "checks": checks,
